@@ -4,7 +4,7 @@ namespace Chf.Gen
 open Chf.DiamClient
 
 /-- internal/abmf/abmf.go: SendAccountDebitRequest / HandleCCA -/
-def abmfClient : Cfg := ⟨true, true, true, true, 5000⟩
+def abmfClient : Cfg := ⟨false, true, true, false, 5000⟩
 
 /-- internal/rating/rating.go: SendServiceUsageRequest / HandleSUA -/
 def ratingClient : Cfg := ⟨true, true, true, true, 5000⟩
